@@ -28,7 +28,7 @@ def bccb_ref(h):
 def run(ctx):
     cm.setup_impl_path(); sys.path.insert(0, os.path.join(cm.ROOT, 'qtrans'))
     sys.path.insert(0, os.path.join(cm.REPO, 'applications', 'image_deblurring'))
-    for b in cm.audit(cm.coq_sources() + [os.path.join(cm.ROOT, 'props', 'C17.v')]): ctx.broken.append('audit: ' + b)
+    for b in cm.audit(cm.coq_sources() + [os.path.join(cm.ROOT, 'props', 'C17.v'), os.path.join(cm.ROOT, 'props', 'C17s.v')]): ctx.broken.append('audit: ' + b)
     info = None
     try:
         import gen_c17
@@ -39,6 +39,16 @@ def run(ctx):
         ctx.obligations.append(('translate', False, repr(e)))
         ctx.broken.append(f'qtrans cannot translate _pad_psf any more: {e!r}')
     if info is not None: cm.prove(ctx, 'C17.v', ['Gen_C17.v'])
+    if info is not None:
+        try:
+            import gen_c17s
+            txt, _ = gen_c17s.generate(cm.REPO)
+            open(os.path.join(ctx.build, 'Gen_C17s.v'), 'w').write(txt)
+            ctx.obligations.append(('translate:qslst.py(apply_blur_fft,qslst_restore_fft,qslst_restore_matrix)', True, ''))
+            cm.prove(ctx, 'C17s.v', ['Gen_C17s.v'])
+        except Exception as e:
+            ctx.obligations.append(('translate:restoration', False, repr(e)))
+            ctx.broken.append(f'qtrans cannot translate apply_blur_fft / qslst_restore_fft / qslst_restore_matrix any more: {e!r}')
     try:
         import numpy as np, qslst
         import script_image_deblurring as app
